@@ -225,6 +225,9 @@ def run_real(src, env, T, **cfg):
             return tr(*a, **kw)
     VIA[0] += 1
     via = VIA[0] % 3
+    if (VIA[0] // 3) % 3 == 0:
+        # an output encoding in effect (byte message ids would be decoded): the translation contract is the same
+        cfg = dict(cfg, encoding='utf-8')
     try:
         if via == 0:
             from vlib import routes, state
@@ -233,8 +236,16 @@ def run_real(src, env, T, **cfg):
         def wrong(*a, **kw):
             log.append(('TEMPLATE-LEVEL TRANSLATE USED',) + a)
             return 'WRONG'
-        return PageTemplate(src, translate=wrong, **cfg)(v=env['v'], lang=env['lang'],
-                                                         translate=tr if via == 1 else FalsyTranslator(), **render_kw), log
+        t = PageTemplate(src, translate=wrong, **cfg)
+        if (VIA[0] // 9) % 2 == 0:
+            # the same instance was rendered before with another per-rendering translation function
+            def earlier(*a, **kw):
+                return 'EARLIER-TRANSLATOR'
+            try:
+                t(v=env['v'], lang=env['lang'], translate=earlier, **render_kw)
+            except Exception:
+                pass
+        return t(v=env['v'], lang=env['lang'], translate=tr if via == 1 else FalsyTranslator(), **render_kw), log
     except Exception as e:
         return 'RAISED %s %s' % (type(e).__name__, str(e).split('\n')[0][:120]), log
 
